@@ -32,7 +32,7 @@ func selftestExchange(o *vh.Out) {
 		}
 		o.Distinct(fmt.Sprint("ex", i))
 	}
-	if vh.IsSim && time.Since(t0) != 0 {
+	if vh.IsSim && vh.Took(time.Since(t0)) {
 		o.Anomaly()
 	}
 	o.Obs("exchanges", 20)
